@@ -69,6 +69,26 @@ type c16hCase struct {
 	Scrollback int        `json:"scrollback,omitempty"`
 	Pre        []c16Chunk `json:"pre,omitempty"`  // logged before DetectHardware
 	Post       []c16Chunk `json:"post,omitempty"` // logged after DetectHardware
+	// Cmd is the boot command line (multiboot tag): consoleFont=<name> / consoleLogo=off steer
+	// what hal hands to consoles that take a font or a logo
+	Cmd string `json:"cmd,omitempty"`
+}
+
+// c16CmdBlock builds a multiboot information block that holds just a command-line tag.
+func c16CmdBlock(cmd string) []uint64 {
+	tagLen := 8 + len(cmd) + 1
+	padded := (tagLen + 7) &^ 7
+	total := 8 + padded + 8
+	words := make([]uint64, total/8)
+	b := unsafe.Slice((*byte)(unsafe.Pointer(&words[0])), total)
+	put32 := func(off int, v uint32) { b[off], b[off+1], b[off+2], b[off+3] = byte(v), byte(v>>8), byte(v>>16), byte(v>>24) }
+	put32(0, uint32(total))
+	put32(8, 1)
+	put32(12, uint32(tagLen))
+	copy(b[16:], cmd)
+	put32(8+padded, 0)
+	put32(8+padded+4, 8)
+	return words
 }
 
 // ---------------------------------------------------------------------------
@@ -422,6 +442,12 @@ func c16hExec(c c16hCase, ref bool) (s *c16Scn, fail *vlib.Failure, harness stri
 	devices = managedDevices{}
 	strBuf.Reset()
 	multiboot.SetInfoPtr(uintptr(unsafe.Pointer(&c16MB[0])))
+	multiboot.VerifResetCmdLine()
+	if c.Cmd != "" {
+		blk := c16CmdBlock(c.Cmd)
+		multiboot.SetInfoPtr(uintptr(unsafe.Pointer(&blk[0])))
+		defer func() { _ = blk }()
+	}
 	var list device.DriverInfoList
 	for i := range c.Drivers {
 		i := i
@@ -969,6 +995,8 @@ func c16hGenCase(t *rapid.T) c16hCase {
 	}
 	c.Pre = rapid.SliceOfN(rapid.Custom(c16GenChunk(8)), 0, 4).Draw(t, "pre")
 	c.Post = rapid.SliceOfN(rapid.Custom(c16GenChunk(5)), 0, 4).Draw(t, "post")
+	c.Cmd = rapid.SampledFrom([]string{"", "", "", "consoleFont=terminus8x16", "consoleFont=terminus10x18 quiet", "consoleFont=nosuchfont",
+		"consoleLogo=off", "consoleLogo=off consoleFont=terminus14x28", "root=/dev/sda1 consoleFont= consoleLogo=on"}).Draw(t, "cmdline")
 	return c
 }
 
